@@ -2,10 +2,13 @@
 #![allow(dead_code)]
 //! `--cfg raptorq_verif`) and writes ndjson traces that TLC validates against the TLA+ specification,
 //! or replays TLC-generated behaviours on the real objects.
+mod codec;
 mod enc;
 mod gf256;
 mod obj;
+mod overhead;
 mod params;
+mod stream;
 mod util;
 
 fn main() {
@@ -20,6 +23,11 @@ fn main() {
         "enc" => enc::run(&opts),
         "objreplay" => obj::replay(&opts),
         "objlog" => obj::log(&opts),
+        "codec-object" => codec::run_object(&opts),
+        "codec-block" => codec::run_block(&opts),
+        "findfail" => codec::find_fail(&opts),
+        "overhead" => overhead::run(&opts),
+        "stream" => stream::run(&opts),
         "paramlog" => params::log(&opts),
         "wrapreplay" => params::replay(&opts),
         other => {
